@@ -1,17 +1,41 @@
-//! C20 executor: `<before 0|1> <secs> <nanos>` -> the text the default timer prints for
-//! UNIX_EPOCH ± Duration::new(secs, nanos), through the real `DateTime::from` + `Display`.
+//! C20 executor: `<before 0|1> <secs> <nanos> [L]` -> the text the default timer prints for
+//! UNIX_EPOCH ± Duration::new(secs, nanos), through the real `DateTime::from` + `Display`; with `L`: the timestamp a real fmt
+//! collector (Full format for even seconds, Compact for odd ones) puts at the head of an event's line while the clock reads that instant.
+use std::sync::{Arc, Mutex};
 use std::time::{Duration, UNIX_EPOCH};
-use tracing_subscriber::fmt::time::__verif::format_system_time;
+use tracing_subscriber::fmt::time::__verif::{format_system_time, set_clock};
+
+#[derive(Clone)]
+struct BufW(Arc<Mutex<Vec<u8>>>);
+impl std::io::Write for BufW {
+    fn write(&mut self, b: &[u8]) -> std::io::Result<usize> { self.0.lock().unwrap().extend_from_slice(b); Ok(b.len()) }
+    fn flush(&mut self) -> std::io::Result<()> { Ok(()) }
+}
 
 fn main() {
+    let buf = Arc::new(Mutex::new(Vec::new()));
+    let (b1, b2) = (buf.clone(), buf.clone());
+    let full = tracing::Dispatch::new(tracing_subscriber::fmt().with_ansi(false).with_writer(move || BufW(b1.clone())).finish());
+    let compact = tracing::Dispatch::new(tracing_subscriber::fmt().compact().with_ansi(false).with_writer(move || BufW(b2.clone())).finish());
     tv_harness::serve(|t| {
         let before = t[0] == "1";
         let secs: u64 = t[1].parse().unwrap();
         let nanos: u32 = t[2].parse().unwrap();
         let d = Duration::new(secs, nanos);
         let st = if before { UNIX_EPOCH.checked_sub(d) } else { UNIX_EPOCH.checked_add(d) };
+        let through_layer = t.get(3) == Some(&"L");
         match st {
             None => "unrepresentable".to_string(),
+            Some(st) if through_layer => {
+                buf.lock().unwrap().clear();
+                set_clock(Some(st));
+                let r = std::panic::catch_unwind(std::panic::AssertUnwindSafe(|| tracing::dispatch::with_default(if secs % 2 == 0 { &full } else { &compact }, || tracing::info!("x"))));
+                set_clock(None);
+                if r.is_err() { return "PANIC".to_string(); }
+                let line = String::from_utf8_lossy(&buf.lock().unwrap()).to_string();
+                // the line starts with the timestamp (no blank in it), a blank, then the level
+                line.split_whitespace().next().unwrap_or("EMPTY-LINE").to_string()
+            }
             Some(st) => match std::panic::catch_unwind(|| format_system_time(st)) {
                 Ok(s) => s,
                 Err(_) => "PANIC".to_string(),
